@@ -1,6 +1,8 @@
 """C05 — Angle stays in [0,360), frozen values never change, text form is canonical."""
 from __future__ import annotations
 
+import ast
+import contextlib
 import copy
 import math
 import pickle
@@ -14,54 +16,101 @@ from translate import c05_sites
 
 MANIFEST = dict(
     technique='Rocq proof (Flocq binary64 model of Python float % 360.0: range, identity-on-range and exact-subtraction-on-[360,720) theorems '
-              'over all finite doubles; exact dyadic model of format_float: shape/value/error theorems and the exact "-0" carve-out; model of '
-              'parse_vec_str with the round-trip theorem parse(format) within 5e-7 for every bracket/whitespace wrapping; the composed chain '
-              'str -> parse_vec_str -> float() -> % 360 % 360 for whole angles and vectors; frame + heap/alias theorems for frozen values and '
-              'copies; slot-transfer model for the VALUE of a copy) + fail-closed, semantically normalising ast census of math.py (store '
-              'sites, angle creations, format/parse pipelines by return-path enumeration, mutation events, result kinds of every public '
-              'method, symbolic run of every copy-like method; the sets of names the census relies on - methods that build a new object, methods that '
-              'write their receiver or argument - are least fixpoints computed from the source, private helpers are recognised by form) + vm_compute correspondences (bit-exact / string-exact / parse results / '
-              'frames / result aliasing / copied slots bit for bit) + history search',
-    text='Theorems in Props/C05.v. (a) For EVERY finite binary64 x the executable Flocq model of x % 360.0 % 360.0 is finite and in [0,360) (a '
-         'single % reaches exactly 360.0, witness -1e-14), is the identity on [0,360) and subtracts exactly 360 on [360,720); hence, if every '
-         'store to _pitch/_yaw/_roll is a double modulo, a copy of an angle slot or 0.0, all angle slots stay in [0,360) after every history '
-         'of stores with finite operands. The census also lists every expression that creates an Angle (constructor / __new__ handed to '
-         '_to_angle / __new__ with all three slots stored on every path), none unclassified. (b) Frame theorem: with a mutation census in '
-         'which no method reachable with a frozen receiver writes its receiver, an argument or a copy() of either, frozen objects never '
-         'change and non-receivers are never written. Copy theorem on a heap with aliasing: for a result-kind table in which '
-         'copy/__copy__/__deepcopy__/__reduce__/freeze/thaw return a NEW object or (frozen classes only) the receiver, and a census in which '
-         'they write nothing, operating on the copy never changes the source and vice versa, for every later history. Value of a copy: for '
-         'the slot-transfer table obtained by running each copy-like method symbolically, the result has the promised class, every slot of '
-         'a new vector/matrix is exactly the source slot, and every slot of a new angle built from a source in range has the same real '
-         'value and is in range (the constructor normalisation is the identity there). (c) format_float on every dyadic: text is '
-         '-?digits(.1-6 digits), no trailing zero, no exponent; "-0" is printed IF AND ONLY IF the input is in the carved-out class (no '
-         'repair in the source, negative, non-zero, |x|*1e6 <= 1/2); value = round-half-even(|x|*1e6)/1e6, within 5e-7 of x. parse_vec_str '
-         'as read from the source (strip, bracket sets, split, float) applied to three formatted numbers in any documented bracket style '
-         'with any whitespace returns three decimals each within 5e-7 of its component (exact integer statement, carved-out "-0" '
-         'included); with float() modelled as correctly rounded the double read back is within 5e-7 + ulp/2. (a)+(c) composed: '
-         'from_str(str(angle)) for an angle whose slots are in range stores slots that are again in [0,360) and within 5e-7 + ulp/2 of the '
-         'printed ones modulo 360 (359.9999997 -> "360" -> 360.0 -> 0.0 is the wrap-around branch); from_str(str(vec)) is within 5e-7 + '
-         'ulp/2 per component. All generated premises are kernel-checked instance obligations on every run.',
-    note='Trusted: Coq kernel + vm_compute, Flocq, translate/c05_sites.py, the hand models Num/Mod360.v, Num/Dec6.v, Num/VecText.v (tied by '
-         'bit-exact / string-exact / parse-result differential runs; str.isspace() table compared on all 1114112 code points), '
-         'SM/FrozenCopyValue.v (tied bit for bit on executed copies). Axioms: the four classical real-number axioms of Coq Reals (through '
-         'Flocq) for the % 360 theorems, the float() corollaries and the composed round-trip theorems only; frame, copy, format and parse '
-         'theorems are axiom-free. Assumptions: operands of the modulo are finite; printf("%.6f") and float() are correctly rounded '
-         '(float() enters as the definition py_float = round-to-nearest-even; the composed theorems quantify over the finite double whose '
-         'value is py_float of the decoded field); only plain-decimal fields are predicted by the parse model (other spellings accepted by '
-         'float() - exponents, inf, underscores - get no prediction); only the public API is used. Not modelled: float VALUES of rotations '
-         '(sin/cos/atan2; only finiteness assumed), __format__ with a user spec, hash/eq consistency, the Cython twin. Known finding kept: '
-         'format_float prints "-0" on the carved-out class (suite pins it); a "-0" outside that class has its own key.',
+              'over all finite doubles; the constructors of Angle/FrozenAngle as a dispatch table over argument forms; exact dyadic model of '
+              'format_float: shape/value/error theorems and the exact "-0" carve-out; model of parse_vec_str with the round-trip theorem '
+              'parse(format) within 5e-7 for every bracket/whitespace wrapping; the composed chain str -> parse_vec_str -> float() -> % 360 % 360 '
+              'for whole angles and vectors; string-level model of the zero stripping of __format__ with a user spec; frame + heap/alias '
+              'theorems for frozen values and copies; slot-transfer model for the VALUE of a copy; hash kinds per class; ONE composed statement '
+              'c05_property over all generated objects) + fail-closed, semantically normalising ast census of math.py (store sites, angle '
+              'creations, constructor paths per argument form by symbolic run, format/parse pipelines by return-path enumeration, __format__ '
+              'as text terms, mutation events, result kinds of every public method, symbolic run of every copy-like method, __hash__ after '
+              'Python\'s resolution, in-place operator methods; the sets of names the census relies on are least fixpoints computed from the '
+              'source) + vm_compute correspondences (bit-exact / string-exact / parse results / frames / result aliasing / copied slots bit for '
+              'bit / __format__ components string-exact) + searches (histories over 65 operation kinds, matrix->angle routes, every constructor '
+              'argument form x boundary values x copies, hash/== of frozen values as keys, every in-place operator on frozen receivers, '
+              '__format__ specs, text round trips), every call into the implementation under a CPU-time limit',
+    text='Theorems in Props/C05.v; c05_property states the whole property over the record of everything read from the source, under the boolean '
+         'hypotheses c05_source_ok which are kernel-checked on today\'s objects on every run. (a) For EVERY finite binary64 x the executable '
+         'Flocq model of x % 360.0 % 360.0 is finite and in [0,360) (a single % reaches exactly 360.0, witness -1e-14), is the identity on '
+         '[0,360) and subtracts exactly 360 on [360,720); hence, if every store to _pitch/_yaw/_roll is a double modulo, a copy of an angle '
+         'slot or 0.0, all angle slots stay in [0,360) after every history of stores with finite operands; and for the dispatch table of '
+         'Angle.__init__/FrozenAngle.__new__ every form of the argument (number, same class, twin angle class, Vec, FrozenVec, other '
+         'iterable) has a path whose result is in range (a slot is taken over unchanged only from an angle). The census also lists every '
+         'expression that creates an Angle, none unclassified. (b) Frame theorem: with a mutation census in which no method reachable with '
+         'a frozen receiver writes its receiver, an argument or a copy() of either, frozen objects never change and non-receivers are never '
+         'written; the hash of a frozen object (a function of all of its slots and nothing else, mutable classes unhashable) is the same '
+         'after every history and equal for equal values; no class of a frozen object defines an in-place operator; two objects of one family '
+         'with identical slots compare == (per-slot comparisons read from __eq__, each accepting a difference of zero). Copy theorem on a heap '
+         'with aliasing, and the VALUE of a copy (class, every slot; angles: same real value, in range). (c) format_float on every dyadic: '
+         'text is -?digits(.1-6 digits), no trailing zero, no exponent; "-0" is printed IF AND ONLY IF the input is in the carved-out class; '
+         'value within 5e-7 of x. parse_vec_str applied to three formatted numbers in any documented bracket style with any whitespace '
+         'returns three decimals each within 5e-7 of its component; with float() modelled as correctly rounded the double read back is '
+         'within 5e-7 + ulp/2; from_str(str(angle)) is in range again and within that bound on the circle. __format__ with a spec: a '
+         'fixed-point text loses only trailing zeros of its fraction (and the dot with them), a text with an exponent or without a dot is '
+         'unchanged (the pinned tree stripped zeros of the exponent: repaired, refuted in the model).',
+    note='Trusted: Coq kernel + vm_compute, Flocq, translate/c05_sites.py, the hand models Num/Mod360.v, Num/Dec6.v, Num/VecText.v, '
+         'Num/SpecStrip.v (tied by bit-exact / string-exact / parse-result differential runs; str.isspace() table compared on all 1114112 '
+         'code points), SM/FrozenCopyValue.v (tied bit for bit on executed copies). Axioms: the four classical real-number axioms of Coq '
+         'Reals (through Flocq) for the % 360 theorems, the constructor theorem, the float() corollaries, the composed round-trip theorems '
+         'and c05_property only; frame, copy, hash, format, parse and __format__ theorems are axiom-free. Assumptions: operands of the modulo '
+         'are finite; printf("%.6f"), format() and float() are correctly rounded; only plain-decimal fields are predicted by the parse model; '
+         'only the public API is used. Not modelled: float VALUES of rotations (sin/cos/atan2; only finiteness assumed, searched), what '
+         'format(value, spec) itself prints (Python\'s; only the post-processing is modelled), == against tuples and the relation of == to the hash '
+         '(== of two objects with identical slots is proved from the comparisons read from __eq__), the Cython '
+         'twin. Known findings kept: format_float / str / __format__(".Nf") print "-0" on negative values that round to zero (suite pins '
+         'str); == within the tolerance does not imply equal hashes (inherent to a tolerance equality).',
 )
 
-IMPORTS = ['Coq.ZArith.ZArith', 'Coq.NArith.NArith', 'Coq.Lists.List', 'Coq.Strings.String', 'SV.Num.Mod360', 'SV.Num.AngleSites',
-           'SV.Num.Dec6', 'SV.Num.Dec6CarveProofs', 'SV.Num.VecText', 'SV.SM.FrozenOps', 'SV.SM.FrozenCopy', 'SV.SM.FrozenCopyValue',
+IMPORTS = ['Coq.ZArith.ZArith', 'Coq.NArith.NArith', 'Coq.Lists.List', 'Coq.Strings.String', 'SV.Num.Mod360', 'SV.Num.AngleSites', 'SV.Num.AngleCtor', 'SV.Num.SpecStrip', 'SV.Num.C05Whole',
+           'SV.Num.Dec6', 'SV.Num.Dec6CarveProofs', 'SV.Num.VecText', 'SV.SM.FrozenOps', 'SV.SM.FrozenCopy', 'SV.SM.FrozenCopyValue', 'SV.SM.FrozenHash', 'SV.SM.FrozenEq',
            'SV.Gen.AngleSites_gen']
 PRE = '''Import ListNotations.
 Fixpoint bad_idx {A} (f : A -> bool) (n : N) (l : list A) : list N := match l with [] => [] | x :: r => (if f x then [] else [n]) ++ bad_idx f (n + 1)%N r end.
 Definition t3_eqb (a b : Z * Z * Z) : bool := let '(a1, a2, a3) := a in let '(b1, b2, b3) := b in (Z.eqb a1 b1 && Z.eqb a2 b2 && Z.eqb a3 b3)%bool.
 Fixpoint nl_eqb (a b : list N) : bool := match a, b with [], [] => true | x :: a', y :: b' => (N.eqb x y && nl_eqb a' b')%bool | _, _ => false end.
 '''
+
+
+class ImplTimeout(Exception):
+    """A call into the implementation used more CPU time than IMPL_CPU_LIMIT: treated as a failing input (a fault can
+    turn a normalisation into a loop that does not end for 1e300)."""
+
+
+IMPL_CPU_LIMIT = 20.0       # seconds of CPU time of this process for ONE call that normally takes microseconds
+HANGS = [0]                 # calls that ran into the limit so far; after the first one the limit drops to 2 s, after
+MAX_HANGS = 3               # MAX_HANGS the searches stop early (each hang is already a failing input with a replay)
+
+
+def too_many_hangs() -> bool:
+    return HANGS[0] >= MAX_HANGS
+
+
+
+@contextlib.contextmanager
+def impl_limit(seconds: float = IMPL_CPU_LIMIT):
+    """Bound one call into the implementation by CPU time (ITIMER_VIRTUAL: does not advance while the process waits for
+    a loaded machine, so slowness cannot raise it).  Only available in the main thread; elsewhere no limit."""
+    import signal
+    import threading
+    if threading.current_thread() is not threading.main_thread():
+        yield
+        return
+
+    def handler(sig, frame):
+        HANGS[0] += 1
+        raise ImplTimeout()
+    old = signal.signal(signal.SIGVTALRM, handler)
+    signal.setitimer(signal.ITIMER_VIRTUAL, seconds if HANGS[0] == 0 else min(seconds, 2.0))
+    try:
+        yield
+    finally:
+        signal.setitimer(signal.ITIMER_VIRTUAL, 0)
+        signal.signal(signal.SIGVTALRM, old)
+
+
+@contextlib.contextmanager
+def no_limit():
+    yield
 
 
 class Pending:
@@ -368,6 +417,55 @@ def corr_parse(ck: Ck) -> None:
         ck.extra['parse_vec_disagreement'] = bad[:5]
 
 
+def corr_format_spec(ck: Ck, side: dict):
+    """format(obj, spec) per component against Num/SpecStrip.v spec_post over the generated configuration, as strings: the
+    input of the model is what Python's format(component, spec) prints, its output must be the component of the result."""
+    import srctools.math as M
+    cfgs = side.get('format_spec', {})
+    n = ck.budget(480, 2400)
+    rng = random.Random(ck.seed + 5)
+    cases: list[tuple[str, str, str]] = []
+    special = [1.5e20, 1e10, 2.5e-10, 100.0, 0.5, -1e-9, 1e100, 1234567.0, 0.0001, 1e-5, 120.0, 1e22, 100000.0, 1e6, -0.0, 359.9999995, 0.0, 10.0]
+    specs = [sp for sp in FORMAT_SPECS if not (re.match(r'.?[<>^=]|0?\d', sp) or sp.startswith(' '))]
+    i = 0
+    while len(cases) < n:
+        v = [special[(i + j * 7) % len(special)] for j in range(3)] if i < len(special) else \
+            [gen_fmt_double(rng)[1] if rng.random() < 0.6 else rng.choice(special) * rng.choice([1, 10, 1000, -1]) for _ in range(3)]
+        i += 1
+        if not all(math.isfinite(x) and abs(x) < 1e300 for x in v):
+            continue
+        for cname in ('Vec', 'FrozenAngle', 'FrozenVec', 'Angle')[:2 if i > len(special) else 4]:
+            fam = 'angle' if 'Angle' in cname else 'vec'
+            o = getattr(M, cname)(*v)
+            for sp in (specs if i <= 3 else rng.sample(specs, 3)):
+                parts = format(o, sp).split(' ')
+                if len(parts) != 3:
+                    continue            # reported by the search
+                for c, t in zip(raw_slots(o), parts):
+                    cases.append((fam, format(c + 0.0 if cfgs.get(fam, {}).get('adds_zero') else c, sp), t))
+                    ck.count('format_spec_corr_cases')
+    cases = cases[:n]
+    enc = lambda t: '[' + ';'.join(str(ord(ch)) for ch in t) + ']%N'
+    jobs = []
+    for lo in range(0, len(cases), 500):
+        lit = coq_list(f'({"true" if f == "vec" else "false"}, {enc(a)}, {enc(b)})' for f, a, b in cases[lo:lo + 500])
+        jobs.append(['bad_idx (fun c : bool * list N * list N => let \'(v, a, b) := c in '
+                     f'nl_eqb (spec_post (if v then vec_spec_cfg else angle_spec_cfg) a) b) 0%N {lit}'])
+    bad: list[int] = []
+    for lo, vals in zip(range(0, len(cases), 500), (yield (jobs, 'fspec', PRE))):
+        if vals is None:
+            ck.obligation('correspondence:format_spec', False, 'model could not be evaluated')
+            ck.tie_broken.append('correspondence format_spec: model evaluation failed')
+            return
+        bad += [lo + i for i in parse_coq_N_list(vals[0])]
+    ck.obligation('correspondence:format_spec', not bad,
+                  f'{len(cases)} components of format(obj, spec): Num/SpecStrip.v spec_post over the generated configuration applied to '
+                  f"Python's format(component, spec) vs the component of the result, as strings: {len(bad)} disagreements")
+    if bad:
+        ck.tie_broken.append('correspondence format_spec (Num/SpecStrip.v vs __format__)')
+        ck.extra['format_spec_disagreement'] = [{'family': cases[i][0], 'format(component, spec)': cases[i][1], 'implementation': cases[i][2]} for i in bad[:5]]
+
+
 PLAIN = re.compile(r'-?[0-9]+(\.[0-9]{1,6})?\Z')
 
 
@@ -418,10 +516,11 @@ def search_text(ck: Ck) -> None:
     from srctools.math import Angle, FrozenAngle, FrozenVec, Vec, format_float, parse_vec_str
     n = ck.budget(6000, 30000)
     found: dict[str, tuple] = {}
-    for i in range(n):
+
+    def one(i: int) -> None:
         kind, x = ('special', FMT_SPECIAL[i]) if i < len(FMT_SPECIAL) else gen_fmt_double(ck.rng)
         if abs(x) > 1e300:
-            continue
+            return
         ck.count('text_cases')
         s = format_float(x)
         p = text_problem(s, x)
@@ -429,7 +528,7 @@ def search_text(ck: Ck) -> None:
             key = 'format-float-' + p
             if key not in found or abs(x) > abs(found[key][0]):
                 found[key] = (x, f'format_float({x!r}) == {s!r}', {'call': 'format_float', 'x': x.hex()})
-            continue
+            return
         tol = 5e-7 + math.ulp(x) / 2
         if abs(float(s) - x) > tol:
             found.setdefault('format-float-error', (x, f'float(format_float({x!r})) = {float(s)!r} differs by more than 5e-7', {'call': 'format_float', 'x': x.hex()}))
@@ -480,6 +579,14 @@ def search_text(ck: Ck) -> None:
                 if not all(roundtrip_within_theorem(t, p, q) for t, p, q in zip(parts, a, back)):
                     found.setdefault('angle-from-str-error', (x, f'{cls.__name__}.from_str({txt!r}) = {back!r} for {tuple(a)!r}',
                                                               {'call': 'from_str', 'cls': cls.__name__, 'xyz': [x.hex(), y.hex(), z.hex()]}))
+    for i in range(n):
+        if too_many_hangs():
+            break
+        try:
+            with impl_limit():
+                one(i)
+        except ImplTimeout:
+            found.setdefault('implementation-hangs-in-text', (0.0, f'text case {i} (format_float / str / from_str) did not return within the CPU time limit', {'call': 'search_text', 'case': i}))
     ck.sample({'str(Vec(-1e-9, 0.1, 725.5))': str(Vec(-1e-9, 0.1, 725.5)), 'str(Angle(-1e-14, 725.5, 359.9999997))': str(Angle(-1e-14, 725.5, 359.9999997))})
     for key, (x, what, rp) in found.items():
         ck.violation(key, what, rp)
@@ -496,10 +603,19 @@ def slots_of(o) -> tuple[str, ...]:
     return VEC_SLOTS if 'Vec' in n else ANG_SLOTS if 'Angle' in n else MAT_SLOTS
 
 
+def safe_hash(o):
+    """hash(o), or a marker when the object is unhashable (a frozen vector/angle must be usable as a key: reported by
+    the searches as frozen-class-unhashable-<Class>)."""
+    try:
+        return hash(o)
+    except TypeError:
+        return 'UNHASHABLE'
+
+
 def snap(o) -> tuple:
     """Observable value of an object: raw slots (as exact hex), hash for the hashable ones, extra instance attributes."""
     raw = tuple(getattr(o, s).hex() if isinstance(getattr(o, s, None), float) else repr(getattr(o, s, None)) for s in slots_of(o))
-    h = hash(o) if type(o).__name__ in ('FrozenVec', 'FrozenAngle') and finite_obj(o) else None
+    h = safe_hash(o) if type(o).__name__ in ('FrozenVec', 'FrozenAngle') and finite_obj(o) else None
     d = tuple(sorted(getattr(o, '__dict__', {}).items()))
     return (type(o).__name__, raw, h, d)
 
@@ -540,7 +656,8 @@ def gen_op(rng: random.Random, regs: list) -> tuple:
              'binop_scalar', 'binop_vec', 'rbinop_scalar', 'neg', 'abs', 'norm', 'cross', 'vec_to_angle', 'matmul', 'tuple_matmul',
              'iop_scalar', 'iop_vec', 'imatmul', 'set_attr', 'set_item', 'vec_minmax', 'vec_localise', 'vec_rotate', 'transform',
              'ang_mul', 'ang_rmul', 'ang_imul', 'mat_to_angle', 'mat_transpose', 'mat_inverse', 'mat_setitem', 'str', 'hash', 'eq', 'iter_ctor',
-             'bbox', 'with_axes', 'divmod', 'round']
+             'bbox', 'with_axes', 'divmod', 'round', 'ctor_cross', 'new_kw', 'set_key', 'vec_to_angle_roll', 'vec_rotation_around',
+             'vec_rotate_by_str', 'vec_clamped', 'vec_lerp', 'mat_from_angstr', 'to_matrix', 'vec_reads']
     name = rng.choice(names)
     a = rng.randrange(len(regs)) if regs else None
     b = rng.randrange(len(regs)) if regs else None
@@ -567,6 +684,11 @@ def apply_op(op: tuple, regs: list):
     if name == 'new_mat_roll': return new((Matrix, FrozenMatrix)[k & 1].from_roll(x))
     if name == 'new_mat_angle': return new(Matrix.from_angle(x, y, z))
     if name == 'new_fmat_angle': return new(FrozenMatrix.from_angle(x, y, z))
+    if name == 'new_kw':
+        cls = (Vec, FrozenVec, Angle, FrozenAngle)[k]
+        kw = dict(zip(FAMILY_KW['ang' if k >= 2 else 'vec'], sc))
+        if x < 0: del kw[FAMILY_KW['ang' if k >= 2 else 'vec'][1]]
+        return new(cls(**kw))
     if name == 'ang_from_str': return new((Angle, FrozenAngle)[k & 1].from_str(f'{x!r} {y!r} {z!r}'))
     if name == 'vec_from_str': return new((Vec, FrozenVec)[k & 1].from_str(f'({x!r} {y!r} {z!r})'))
     if A is None:
@@ -589,6 +711,51 @@ def apply_op(op: tuple, regs: list):
     if name == 'ctor_frozen':
         cls = FrozenVec if isvec(A) else FrozenAngle if isang(A) else FrozenMatrix
         return ('__new__', None, [a], [cls(A)])
+    if name == 'vec_to_angle_roll':
+        if not isvec(A) or not isvec(B): return None
+        return ('to_angle_roll', a, [b], [A.norm().to_angle_roll(A.norm().cross((0.0, 0.0, 1.0) if abs(A.norm().z) < 0.9 else (1.0, 0.0, 0.0)).norm())])
+    if name == 'vec_rotation_around':
+        if not isvec(A): return None
+        return ('rotation_around', a, [], [type(A)(*[(x if i == k % 3 else 0.0) for i in range(3)]).rotation_around(y)])
+    if name == 'vec_rotate_by_str':
+        if not isvec(A) or not hasattr(A, 'rotate_by_str'): return None
+        T = A.rotate_by_str(f'{x!r} {y!r} {z!r}')
+        return ('rotate_by_str', a, [], [] if T is A else [T])
+    if name == 'vec_clamped':
+        if not isvec(A) or not isvec(B): return None
+        return ('clamped', a, [b], [A.clamped(mins=B) if k & 1 else A.clamped(B, B + (1.0, 1.0, 1.0))])
+    if name == 'vec_lerp':
+        if not isvec(A) or not isvec(B): return None
+        return ('lerp', None, [a, b], [type(A).lerp(0.25, 0.0, 1.0, A, B)])
+    if name == 'mat_from_angstr':
+        M_ = (Matrix, FrozenMatrix)[k & 1]
+        if A is not None and isang(A) and k & 2:
+            return ('from_angstr', None, [a], [M_.from_angstr(A)])
+        return new(M_.from_angstr(f'{x!r} {y!r} {z!r}'))
+    if name == 'to_matrix':
+        from srctools.math import to_matrix
+        return ('to_matrix', None, [a], [to_matrix(A)])
+    if name == 'vec_reads':
+        if not isvec(A): return None
+        A.len_sq(); A.mag(); A.other_axes('xyz'[k % 3]); A.in_bbox(A, A); A.dot(A); A.as_tuple()
+        try:
+            A.axis()
+        except ValueError:
+            pass                    # not on an axis (within its tolerance)
+        if finite_small(A): list(A.iter_line(A + (0.0, 0.0, 8.0), 4))
+        return ('<reads>', a, [], [])
+    if name == 'ctor_cross':          # an angle from a vector object, a vector from an angle object (and the same family)
+        if ismat(A): return None
+        return ('__init__', None, [a], [(Vec, FrozenVec, Angle, FrozenAngle)[k](A)])
+    if name == 'set_key':
+        if not isang(A): return None
+        key = ANG_KEYS[k % 3][1 + (k + len(regs)) % (len(ANG_KEYS[k % 3]) - 1)]
+        try:
+            A[key] = x
+        except TypeError:
+            if is_frozen(A): return ('__setitem__', a, [], [])
+            raise
+        return ('__setitem__', a, [], [])
     if name == 'iter_ctor':
         if ismat(A): return None
         return ('__init__', None, [a], [(Vec, FrozenVec, Angle, FrozenAngle)[k](iter(A))])
@@ -720,7 +887,7 @@ def apply_op(op: tuple, regs: list):
             A.join(';'); format(A, '.3f'); list(A); tuple(reversed(A)); A.as_tuple() if not isvec(A) else None
         return ('__str__', a, [], [])
     if name == 'hash':
-        if type(A).__name__ in ('FrozenVec', 'FrozenAngle'):
+        if type(A).__name__ in ('FrozenVec', 'FrozenAngle') and safe_hash(A) != 'UNHASHABLE':
             hash(A); {A: 1}
         return ('__hash__', a, [], [])
     if name == 'eq':
@@ -732,6 +899,13 @@ def apply_op(op: tuple, regs: list):
 
 COPY_OPS = {'copy', 'copy_copy', 'deepcopy', 'pickle', 'freeze', 'thaw', 'ctor_same', 'ctor_frozen'}
 SHAPE_OPS = {'copy', 'copy_copy', 'deepcopy', 'pickle', 'freeze', 'thaw'}       # the methods of Gen copy_shapes
+NEVER_RAISES = COPY_OPS | {'new_vec', 'new_fvec', 'new_ang', 'new_fang', 'new_kw', 'new_mat_yaw', 'new_mat_pitch', 'new_mat_roll', 'new_mat_angle',
+                           'new_fmat_angle', 'ang_from_str', 'vec_from_str', 'ctor_cross', 'iter_ctor', 'str', 'hash', 'eq', 'neg', 'abs', 'mat_to_angle',
+                           'mat_transpose', 'to_matrix', 'mat_from_angstr', 'ang_mul', 'ang_rmul', 'with_axes'}
+
+
+def finite_small(o) -> bool:
+    return all(abs(getattr(o, sl)) < 1e6 for sl in slots_of(o))
 
 
 def finite_obj(o) -> bool:
@@ -759,10 +933,17 @@ class HistRunner:
             return
         before = [snap(o) for o in regs]
         try:
-            with warnings.catch_warnings():
+            with warnings.catch_warnings(), impl_limit():
                 warnings.simplefilter('ignore')
                 res = apply_op(tuple(op), regs)
-        except (TypeError, AttributeError, ValueError, ZeroDivisionError, KeyError, NotImplementedError, OverflowError, ArithmeticError):
+        except ImplTimeout:
+            problems.append((f'implementation-hangs-in-{op[0]}', f'{op[0]} did not return within {IMPL_CPU_LIMIT:.0f} s of CPU time', step))
+            return
+        except (TypeError, AttributeError, ValueError, ZeroDivisionError, KeyError, NotImplementedError, OverflowError, ArithmeticError) as e:
+            if op[0] in NEVER_RAISES and not isinstance(e, ArithmeticError):     # (overflow of huge finite values is legitimate)
+                # constructions from finite numbers, copies, reading: no input makes these fail
+                problems.append((f'raised-{type(e).__name__}-in-{op[0]}', f'{op[0]} raised {type(e).__name__}: {e}', step))
+                return
             res = ('<raised>', op[1], [], [])
         if res is None:
             return
@@ -807,6 +988,9 @@ class HistRunner:
                 problems.append((f'copy-not-equal-{op[0]}-{type(src).__name__}', f'{op[0]} of {snap(src)} gave {snap(dst)}', step))
             if dst is src and not is_frozen(src):
                 problems.append((f'copy-is-same-object-{op[0]}-{type(src).__name__}', f'{op[0]} returned the mutable source itself', step))
+        for o in regs[nregs:]:
+            if type(o).__name__ in ('FrozenVec', 'FrozenAngle') and safe_hash(o) == 'UNHASHABLE':
+                problems.append((f'frozen-class-unhashable-{type(o).__name__}', f'hash() of the {type(o).__name__} returned by {op[0]} raises TypeError', step))
         # (a) every angle in range, now and for every register
         for i, o in enumerate(regs):
             if isang(o) and finite_obj(o):
@@ -830,7 +1014,7 @@ def run_history(hist: list[tuple]):
     return r.problems, r.frames, r.regs
 
 
-TO_ANGLE_OPS = {'mat_to_angle', 'ang_from_basis', 'matmul', 'imatmul', 'transform', 'tuple_matmul', 'vec_to_angle'}
+TO_ANGLE_OPS = {'mat_to_angle', 'ang_from_basis', 'matmul', 'imatmul', 'transform', 'tuple_matmul', 'vec_to_angle', 'vec_to_angle_roll'}
 
 
 def classify_range(opname: str, meth) -> str:
@@ -872,6 +1056,8 @@ def search_histories(ck: Ck) -> list[dict]:
     found: dict[str, tuple] = {}
     all_frames: list[dict] = []
     for i in range(n):
+        if too_many_hangs():
+            break
         if i < len(CORPUS_HIST):
             hist = [tuple(o) for o in CORPUS_HIST[i]]
             problems, frames, regs = run_history(hist)
@@ -1026,8 +1212,11 @@ def search_to_angle(ck: Ck) -> None:
         rng = ck.rng
         v = [rnd_val(rng), rnd_val(rng), rnd_val(rng)]
         route = rng.choice(['from_yaw', 'from_pitch', 'from_roll', 'from_angle', 'angle_matmul', 'angle_imatmul', 'transform', 'from_basis', 'rmatmul',
-                            'axis_angle', 'vec_to_angle'])
+                            'axis_angle', 'vec_to_angle', 'to_angle_roll', 'rotation_around', 'from_angstr', 'to_matrix_angle'])
+        if too_many_hangs():
+            break
         try:
+          with impl_limit():
             if route == 'from_yaw': a = Matrix.from_yaw(v[0]).to_angle()
             elif route == 'from_pitch': a = FrozenMatrix.from_pitch(v[0]).to_angle()
             elif route == 'from_roll': a = Matrix.from_roll(v[0]).to_angle()
@@ -1044,7 +1233,23 @@ def search_to_angle(ck: Ck) -> None:
                 a = FrozenAngle.from_basis(x=m.forward(), y=m.left())
             elif route == 'rmatmul': a = Angle(0, 0, 0) @ FrozenMatrix.from_yaw(v[0])
             elif route == 'axis_angle': a = Matrix.axis_angle(Vec(0, 0, 1), v[0]).to_angle()
+            elif route == 'to_angle_roll':
+                m = Matrix.from_yaw(v[0])
+                with warnings.catch_warnings():
+                    warnings.simplefilter('ignore')
+                    a = m.forward().to_angle_roll(m.up())
+            elif route == 'rotation_around':
+                with warnings.catch_warnings():
+                    warnings.simplefilter('ignore')
+                    a = Vec(*[(1.0 if j == i % 3 else 0.0) for j in range(3)]).rotation_around(v[0])
+            elif route == 'from_angstr': a = FrozenMatrix.from_angstr(f'{v[0]!r} {v[1]!r} {v[2]!r}').to_angle()
+            elif route == 'to_matrix_angle':
+                from srctools.math import to_matrix
+                a = to_matrix(FrozenAngle(*v)).to_angle()
             else: a = Vec(1.0, math.sin(math.radians(v[0])), 0.0).to_angle(v[1])
+        except ImplTimeout:
+            found.setdefault(f'implementation-hangs-in-{route}', (route, v, ('did not return within the CPU time limit',)))
+            continue
         except (ValueError, ZeroDivisionError):
             continue
         except AttributeError as e:         # an angle escaped from a conversion without all of its slots and was read
@@ -1058,12 +1263,557 @@ def search_to_angle(ck: Ck) -> None:
             found.setdefault('angle-slot-missing-after-to_angle', (route, v, tuple(missing_slots(a))))
             continue
         vals = (a.pitch, a.yaw, a.roll)
+        if not all(type(x) is float and math.isfinite(x) for x in vals):
+            # the operands of % in _to_angle are degrees(atan2(...)): finite (|x| <= 180) for every finite rotation
+            found.setdefault(f'angle-not-finite-after-{route}', (route, v, vals))
+            continue
         if all(math.isfinite(x) for x in vals) and not all(0.0 <= x < 360.0 for x in vals):
-            key = 'angle-360-from-matrix-to-angle' if route != 'vec_to_angle' else 'angle-out-of-range-after-vec_to_angle'
+            key = 'angle-360-from-matrix-to-angle' if route not in ('vec_to_angle', 'rotation_around') else f'angle-out-of-range-after-{route}'
             if key not in found:
                 found[key] = (route, v, vals)
     for key, (route, v, vals) in found.items():
         ck.violation(key, f'{route}{tuple(v)!r} gives (pitch, yaw, roll) = {vals!r}', {'route': route, 'values': [x.hex() for x in v]})
+
+
+# ------------------------------------------------------------------------------------------------ constructor argument forms
+CTOR_FLOATS = [0.0, -0.0, 360.0, -360.0, 720.0, -720.0, -90.0, -1e-14, 1e-14, -1e-9, -3.5e-15, 359.99999999999994, 360.00000000000006,
+               -359.99999999999994, 90.0, 180.0, 270.0, 450.0, -725.5, 1e9, -1e9, 1e300, -1e300, -5e-324, 5e-324, 359.9999999, -2.0 ** -45,
+               12.5, 1e16, -1e16, 359.9999997, -4.2e-14]
+CTOR_INTS = [0, 1, -1, 90, -90, 359, 360, 361, -360, 720, -725, 10 ** 6, -10 ** 9, True, False, 10 ** 18]
+FAMILY_KW = {'ang': ('pitch', 'yaw', 'roll'), 'vec': ('x', 'y', 'z')}
+ANG_KEYS = ((0, 'p', 'pit', 'pitch'), (1, 'y', 'yaw'), (2, 'r', 'rol', 'roll'))
+VEC_KEYS = ((0, 'x'), (1, 'y'), (2, 'z'))
+
+
+def norm360(x) -> float:
+    """What the property demands of a stored angle component: the double modulo of the float (tied to Num/Mod360.v by
+    correspondence:pymod360)."""
+    return float(x) % 360.0 % 360.0
+
+
+def ctor_forms() -> dict:
+    """Every public way of building an Angle/FrozenAngle/Vec/FrozenVec from given numbers: name -> f(C, v, fam, k) returning
+    (object, the three numbers it must hold BEFORE normalisation).  `nrm` marks values that arrive through an existing
+    angle (already normalised there)."""
+    import array
+    import collections
+    from srctools.math import Angle, FrozenAngle, FrozenVec, Matrix, Vec, Vec_tuple
+    nrm = lambda v: tuple(norm360(x) for x in v)
+    fl = lambda v: tuple(float(x) for x in v)
+    txt = lambda v: ' '.join(repr(float(x)) for x in v)
+    mut = lambda fam: Angle if fam == 'ang' else Vec
+    frz = lambda fam: FrozenAngle if fam == 'ang' else FrozenVec
+    own = lambda fam, v: nrm(v) if fam == 'ang' else fl(v)      # components of an existing object of the same family
+    F: dict = {}
+    F['floats'] = lambda C, v, fam, k: (C(float(v[0]), float(v[1]), float(v[2])), v)
+    F['numbers'] = lambda C, v, fam, k: (C(v[0], v[1], v[2]), v)                       # ints / bools / floats as given
+    F['one'] = lambda C, v, fam, k: (C(v[0]), (v[0], 0.0, 0.0))
+    F['two'] = lambda C, v, fam, k: (C(v[0], v[1]), (v[0], v[1], 0.0))
+    F['none'] = lambda C, v, fam, k: (C(), (0.0, 0.0, 0.0))
+    F['kw'] = lambda C, v, fam, k: (C(**dict(zip(FAMILY_KW[fam], v))), v)
+    F['kw_one'] = lambda C, v, fam, k: (C(**{FAMILY_KW[fam][k % 3]: v[k % 3]}), tuple(v[i] if i == k % 3 else 0.0 for i in range(3)))
+    F['pos_kw'] = lambda C, v, fam, k: (C(v[0], **{FAMILY_KW[fam][2]: v[2]}), (v[0], 0.0, v[2]))
+    F['vec'] = lambda C, v, fam, k: (C(Vec(*v)), fl(v))
+    F['fvec'] = lambda C, v, fam, k: (C(FrozenVec(*v)), fl(v))
+    F['vec_and_defaults'] = lambda C, v, fam, k: (C((Vec, FrozenVec)[k & 1](*v), 5.0, -7.0), fl(v))
+    F['angle'] = lambda C, v, fam, k: (C(Angle(*v)), nrm(v))
+    F['fangle'] = lambda C, v, fam, k: (C(FrozenAngle(*v)), nrm(v))
+    F['angle_and_defaults'] = lambda C, v, fam, k: (C((Angle, FrozenAngle)[k & 1](*v), 5.0, -7.0), nrm(v))
+    F['tuple'] = lambda C, v, fam, k: (C(tuple(v)), v)
+    F['list'] = lambda C, v, fam, k: (C(list(v)), v)
+    F['iterator'] = lambda C, v, fam, k: (C(iter(list(v))), v)
+    F['generator'] = lambda C, v, fam, k: (C(x for x in v), v)
+    F['map'] = lambda C, v, fam, k: (C(map(float, v)), v)
+    F['reversed'] = lambda C, v, fam, k: (C(reversed([v[2], v[1], v[0]])), v)
+    F['vec_tuple'] = lambda C, v, fam, k: (C(Vec_tuple(*v)), v)
+    F['as_tuple'] = lambda C, v, fam, k: (C((Angle, FrozenAngle)[k & 1](*v).as_tuple()), nrm(v))
+    F['deque'] = lambda C, v, fam, k: (C(collections.deque(v)), v)
+    F['array'] = lambda C, v, fam, k: (C(array.array('d', fl(v))), v)
+    F['dict_keys'] = lambda C, v, fam, k: (C(dict.fromkeys(fl(v)[:1])), (v[0], 0.0, 0.0))
+    F['short1'] = lambda C, v, fam, k: (C([v[0]]), (v[0], 0.0, 0.0))
+    F['short1_defaults'] = lambda C, v, fam, k: (C((v[0],), v[1], v[2]), v)
+    F['short2_defaults'] = lambda C, v, fam, k: (C([v[0], v[1]], 123.0, v[2]), v)
+    F['empty_defaults'] = lambda C, v, fam, k: (C((), v[1], v[2]), (0.0, v[1], v[2]))
+    F['long4'] = lambda C, v, fam, k: (C([v[0], v[1], v[2], 99.0]), v)
+    F['from_str'] = lambda C, v, fam, k: (C.from_str(txt(v)), v)
+    F['from_str_brackets'] = lambda C, v, fam, k: (C.from_str(('({})', '[{}]', ' <{}> ', '{{{}}}')[k].format(txt(v))), v)
+    F['from_str_defaults'] = lambda C, v, fam, k: (C.from_str(('not a vector', '1 2', '', '1 2 3 4')[k], v[0], v[1], v[2]), v)
+    F['from_str_vec'] = lambda C, v, fam, k: (C.from_str((Vec, FrozenVec)[k & 1](*v)), fl(v))
+    F['from_str_angle'] = lambda C, v, fam, k: (C.from_str((Angle, FrozenAngle)[k & 1](*v)), nrm(v))
+    F['with_axes1'] = lambda C, v, fam, k: (C.with_axes(FAMILY_KW[fam][k % 3], v[k % 3]), tuple(v[i] if i == k % 3 else 0.0 for i in range(3)))
+    F['with_axes2'] = lambda C, v, fam, k: (C.with_axes(FAMILY_KW[fam][2], v[2], FAMILY_KW[fam][0], v[0]), (v[0], 0.0, v[2]))
+    F['with_axes3'] = lambda C, v, fam, k: (C.with_axes(FAMILY_KW[fam][1], v[1], FAMILY_KW[fam][2], v[2], FAMILY_KW[fam][0], v[0]), v)
+    F['with_axes_objects'] = lambda C, v, fam, k: (C.with_axes(FAMILY_KW[fam][1], mut(fam)(*v), FAMILY_KW[fam][0], frz(fam)(*v)),
+                                                   (own(fam, v)[0], own(fam, v)[1], 0.0))
+
+    def from_basis(C, v, fam, k):
+        if fam != 'ang':
+            raise LookupError
+        m = Matrix.from_angle(*nrm(v))
+        return (C.from_basis(x=m.forward(), z=m.up()) if k & 1 else C.from_basis(x=m.forward(), y=m.left())), None
+    F['from_basis'] = from_basis
+
+    def setter(how):
+        def f(C, v, fam, k):
+            if C not in (Angle, Vec):
+                raise LookupError               # frozen classes have no setters (their refusal is part of the histories)
+            o = C(1.0, 2.0, 3.0)
+            keys = ANG_KEYS if fam == 'ang' else VEC_KEYS
+            for i in range(3):
+                if how == 'attr':
+                    setattr(o, FAMILY_KW[fam][i], v[i])
+                else:
+                    o[keys[i][0] if how == 'index' else keys[i][1 + k % (len(keys[i]) - 1)]] = v[i]
+            return o, v
+        return f
+    F['set_attr'], F['set_index'], F['set_key'] = setter('attr'), setter('index'), setter('key')
+    return F
+
+
+def ctor_posts() -> dict:
+    """What is done with a constructed object: name -> f(o) returning the object that must equal o (or LookupError)."""
+    from srctools.math import Angle, FrozenAngle, FrozenVec, Vec
+
+    def twin(o, frozen: bool):
+        return ((Angle, FrozenAngle) if isang(o) else (Vec, FrozenVec))[frozen]
+
+    def only(pred, f):
+        def g(o):
+            if not pred(o):
+                raise LookupError
+            return f(o)
+        return g
+    P = {'copy': lambda o: o.copy(), 'copy_copy': copy.copy, 'deepcopy': copy.deepcopy}
+    for proto in range(0, pickle.HIGHEST_PROTOCOL + 1):
+        P[f'pickle{proto}'] = lambda o, proto=proto: pickle.loads(pickle.dumps(o, protocol=proto))
+    P['freeze'] = only(lambda o: not is_frozen(o), lambda o: o.freeze())
+    P['thaw'] = only(is_frozen, lambda o: o.thaw())
+    P['freeze_thaw'] = only(lambda o: not is_frozen(o), lambda o: o.freeze().thaw())
+    P['ctor_same'] = lambda o: type(o)(o)
+    P['ctor_mutable'] = lambda o: twin(o, False)(o)
+    P['ctor_frozen'] = lambda o: twin(o, True)(o)
+    P['from_str_object'] = lambda o: type(o).from_str(o)
+    P['ctor_components'] = lambda o: type(o)(*o)
+    P['ctor_str'] = only(isang, lambda o: type(o).from_str(' '.join(repr(c) for c in o)))
+    return P
+
+
+def raw_slots(o) -> tuple:
+    return tuple(getattr(o, s, None) for s in slots_of(o))
+
+
+def unhex(x):
+    return float.fromhex(x) if isinstance(x, str) and 'x' in x else ast.literal_eval(x) if isinstance(x, str) else x
+
+
+def hexes(t) -> list:
+    return [x.hex() if isinstance(x, float) else repr(x) for x in t]
+
+
+def ctor_case(cname: str, form: str, v: list, k: int, limit=None) -> list[tuple[str, str]]:
+    """Build one object and test it.  Returns [(violation key, text)].  An exception from the implementation is a
+    failure too: every form listed is part of the documented constructor interface."""
+    import srctools.math as M
+    C = getattr(M, cname)
+    fam = 'ang' if 'Angle' in cname else 'vec'
+    F = ctor_forms()
+    try:
+        with (limit or no_limit)():
+            o, raw = F[form](C, v, fam, k)
+    except LookupError:
+        return []
+    except ImplTimeout:
+        return [(f'implementation-hangs-in-ctor-{form}-{cname}', f'{cname} by {form} of {v!r} did not return within the CPU time limit')]
+    except Exception as e:          # noqa: BLE001 - whatever a broken tree raises
+        return [(f'ctor-raised-{form}-{cname}', f'{cname} by {form} of {v!r} raised {type(e).__name__}: {e}')]
+    out: list[tuple[str, str]] = []
+    what = f'{cname} by {form} of {v!r} (k={k})'
+    if type(o) is not C:
+        return [(f'ctor-wrong-class-{form}-{cname}', f'{what} is a {type(o).__name__}')]
+    got = raw_slots(o)
+    if not all(type(x) is float for x in got):
+        return [(f'ctor-slot-not-float-{form}-{cname}', f'{what} holds {got!r}')]
+    if not all(math.isfinite(x) for x in got):
+        return []                                   # non-finite values are outside the property
+    if fam == 'ang' and not all(0.0 <= x < 360.0 for x in got):
+        out.append((f'angle-out-of-range-after-ctor-{form}-{cname}', f'{what} holds {got!r}'))
+    if (o.pitch, o.yaw, o.roll) != got if fam == 'ang' else (o.x, o.y, o.z) != got:
+        out.append((f'ctor-property-differs-from-slot-{form}-{cname}', f'{what}: slots {got!r}'))
+    if raw is not None:
+        exp = tuple(norm360(x) for x in raw) if fam == 'ang' else tuple(float(x) for x in raw)
+        if hexes(exp) != hexes(got):
+            out.append((f'{"angle" if fam == "ang" else "vec"}-ctor-wrong-value-{form}-{cname}', f'{what} holds {got!r}, the components given are {exp!r}'))
+        else:
+            # equal to, and (frozen) hashing like, the same value built from three floats
+            ref = C(*exp)
+            if not (o == ref) or (o != ref) or not (o == exp) or not (ref == o):
+                out.append((f'ctor-not-equal-to-same-value-{form}-{cname}', f'{what} == {ref!r} is false'))
+            if is_frozen(o) and safe_hash(o) == 'UNHASHABLE':
+                return [(f'frozen-class-unhashable-{cname}', f'hash() of {what} raises TypeError')]
+            if is_frozen(o) and hash(o) != hash(ref):
+                out.append((f'frozen-hash-differs-for-same-value-constructed-{cname}', f'hash of {what} differs from hash({ref!r})'))
+    if out:
+        return out
+    for pname, post in ctor_posts().items():
+        try:
+            with (limit or no_limit)():
+                r = post(o)
+        except LookupError:
+            continue
+        except ImplTimeout:
+            return [(f'implementation-hangs-in-{pname}-{cname}', f'{pname} of {what} did not return within the CPU time limit')]
+        except Exception as e:      # noqa: BLE001
+            out.append((f'copy-raised-{pname}-{cname}', f'{pname} of {what} raised {type(e).__name__}: {e}'))
+            continue
+        frozen_res = pname in ('freeze', 'ctor_frozen') or (is_frozen(o) and pname not in ('thaw', 'ctor_mutable'))
+        want = ((M.Angle, M.FrozenAngle) if fam == 'ang' else (M.Vec, M.FrozenVec))[frozen_res]
+        if type(r) is not want:
+            out.append((f'copy-wrong-class-{pname}-{cname}', f'{pname} of {what} is a {type(r).__name__}'))
+            continue
+        if hexes(raw_slots(r)) != hexes(got):
+            out.append((f'copy-not-equal-{pname}-{cname}', f'{pname} of {what} = {got!r} holds {raw_slots(r)!r}'))
+        elif not (r == o) or (r != o) or (is_frozen(r) and is_frozen(o) and safe_hash(r) != safe_hash(o)):
+            out.append((f'copy-compares-unequal-{pname}-{cname}', f'{pname} of {what}: == / hash disagree although all slots are identical'))
+        if r is o and not is_frozen(o):
+            out.append((f'copy-is-same-object-{pname}-{cname}', f'{pname} of {what} returned the mutable object itself'))
+        if raw_slots(o) != got:
+            out.append((f'source-changed-by-{pname}-{cname}', f'{pname} changed {what} from {got!r} to {raw_slots(o)!r}'))
+    return out
+
+
+# constructor forms that call the constructor directly with an argument of one form of Num/AngleCtor.v (None: depends on the class)
+FORM_TO_ARGFORM = {'floats': 'FNumber', 'numbers': 'FNumber', 'one': 'FNumber', 'two': 'FNumber', 'kw': 'FNumber', 'pos_kw': 'FNumber',
+                   'vec': 'FVec', 'fvec': 'FFrozenVec', 'angle': None, 'fangle': None, 'tuple': 'FIterable', 'list': 'FIterable',
+                   'iterator': 'FIterable', 'generator': 'FIterable', 'map': 'FIterable', 'reversed': 'FIterable', 'vec_tuple': 'FIterable',
+                   'deque': 'FIterable', 'array': 'FIterable', 'long4': 'FIterable', 'short1_defaults': 'FIterable', 'short2_defaults': 'FIterable'}
+CTOR_CORR_CASES: list[tuple] = []
+
+
+def corr_ctor_rows(ck: Ck, side: dict):
+    """The generated dispatch table angle_ctor_rows with its meaning ctor_eval (Num/AngleCtor.v) against the objects the
+    constructors really built in search_ctor_forms: for the row of (constructor, argument form) the three slots the model
+    computes from the supplied floats (vm_compute, Flocq % 360.0) must be the slots of the object, bit for bit."""
+    import srctools.math as M
+    ctors = {c.split('.')[0]: c for c in side.get('angle_ctors', [])}
+    cases = []
+    per: dict = {}
+    for cname, form, v, k in CTOR_CORR_CASES:
+        af = FORM_TO_ARGFORM[form]
+        if af is None:
+            src = 'Angle' if form == 'angle' else 'FrozenAngle'
+            af = 'FSameClass' if src == cname else 'FOtherAngle'
+        if per.get((cname, af), 0) >= 45 or cname not in ctors:
+            continue
+        try:
+            o, raw = ctor_forms()[form](getattr(M, cname), v, 'ang', k)
+        except Exception:           # noqa: BLE001 - reported by the search
+            continue
+        supplied = [norm360(x) for x in raw] if af in ('FSameClass', 'FOtherAngle') else [float(x) for x in raw]
+        got = raw_slots(o)
+        if not all(type(x) is float and math.isfinite(x) for x in tuple(supplied) + tuple(got)):
+            continue
+        per[(cname, af)] = per.get((cname, af), 0) + 1
+        cases.append((ctors[cname], af, supplied, got))
+        ck.count('ctor_row_corr_cases')
+        ck.hist('ctor_row_checked', f'{cname}:{af}')
+    cases = cases[:500]
+    if not cases:
+        ck.obligation('correspondence:ctor_rows', False, 'no constructor case recorded')
+        ck.tie_broken.append('correspondence ctor_rows: no cases')
+        return
+    t = lambda x: '(%s, %d, (%d))' % (('true' if dbl_parts(x)[0] else 'false'), dbl_parts(x)[1], dbl_parts(x)[2])
+    z = lambda x: '(%d, %d, (%d))' % dbl_parts(x)
+    lit = coq_list(f'("{c}"%string, {af}, ({t(sv[0])}, {t(sv[1])}, {t(sv[2])}), ({z(g[0])}, {z(g[1])}, {z(g[2])}))' for c, af, sv, g in cases)
+    pre = PRE + '''Definition row_of (c : string) (f : argform) : option ctor_action :=
+  match filter (fun r : ctor_row => (String.eqb (fst (fst r)) c && argform_eqb (snd (fst r)) f)%bool) angle_ctor_rows with r :: _ => Some (snd r) | [] => None end.
+Definition mk3 (p : bool * Z * Z) : b64 := let '(s, m, e) := p in mk s m e.
+'''
+    expr = ('bad_idx (fun c : string * argform * ((bool * Z * Z) * (bool * Z * Z) * (bool * Z * Z)) * ((Z * Z * Z) * (Z * Z * Z) * (Z * Z * Z)) => '
+            "let '(cn, f, sv, g) := c in let '(s1, s2, s3) := sv in let '(g1, g2, g3) := g in "
+            'match row_of cn f with Some a => match ctor_eval a (mk3 s1, mk3 s2, mk3 s3) with '
+            "Some (r1, r2, r3) => (t3_eqb (show r1) g1 && t3_eqb (show r2) g2 && t3_eqb (show r3) g3)%bool | None => false end | None => false end) 0%N "
+            f'({lit})%Z')
+    vals = (yield ([[expr]], 'ctorrows', pre))[0]
+    if vals is None:
+        ck.obligation('correspondence:ctor_rows', False, 'model could not be evaluated')
+        ck.tie_broken.append('correspondence ctor_rows: model evaluation failed')
+        return
+    bad = parse_coq_N_list(vals[0])
+    ck.obligation('correspondence:ctor_rows', not bad,
+                  f'{len(cases)} executed constructor calls over {len(per)} (class, argument form) pairs: slots computed by Num/AngleCtor.v ctor_eval over the '
+                  f'generated dispatch table vs the slots of the real object, bit for bit: {len(bad)} disagreements')
+    if bad:
+        ck.tie_broken.append('correspondence ctor_rows (dispatch table vs real constructors)')
+        ck.extra['ctor_rows_disagreement'] = [{'ctor': cases[i][0], 'form': cases[i][1], 'supplied': hexes(cases[i][2]), 'implementation': hexes(cases[i][3])} for i in bad[:5]]
+
+
+def search_ctor_forms(ck: Ck) -> None:
+    """Every constructor argument form x boundary and out-of-range values x the four vector/angle classes, then every
+    copy-like operation on the result (input 3 of round 4: a fast path for ONE argument form of ONE class)."""
+    rng = ck.rng
+    forms = list(ctor_forms())
+    n = ck.budget(40, 300)
+    triples: list[list] = [[s, s, s] for s in CTOR_FLOATS[:12]]
+    triples += [[CTOR_FLOATS[(i + j) % len(CTOR_FLOATS)] for j in (0, 7, 19)] for i in range(len(CTOR_FLOATS))][:max(0, n // 2 - 12)]
+    while len(triples) < n:
+        q = rng.random()
+        triples.append([rng.choice(CTOR_INTS) if q < 0.3 or (q < 0.5 and rng.random() < 0.5) else rnd_val(rng) if rng.random() < 0.5 else rng.choice(CTOR_FLOATS)
+                        for _ in range(3)])
+    found: dict[str, tuple] = {}
+    for ti, v in enumerate(triples):
+        if too_many_hangs():
+            break
+        for form in forms:
+            for cname in ('Angle', 'FrozenAngle', 'Vec', 'FrozenVec'):
+                k = (ti + len(form)) % 4
+                probs = ctor_case(cname, form, v, k, impl_limit)
+                if form in FORM_TO_ARGFORM and 'Angle' in cname and len(CTOR_CORR_CASES) < 4000 \
+                        and not any(key.startswith(('ctor-raised', 'implementation-hangs', 'ctor-wrong-class', 'ctor-slot-not-float')) for key, _ in probs):
+                    CTOR_CORR_CASES.append((cname, form, list(v), k))
+                ck.count('ctor_form_cases')
+                ck.hist('ctor_form', form)
+                if 'Angle' in cname and any(not (0.0 <= float(x) < 360.0) or str(x) == '-0.0' for x in v):
+                    ck.seen(('ctor', cname, form, repr(v), k))
+                for key, what in probs:
+                    if key not in found:
+                        found[key] = (what, {'call': 'ctor_case', 'cls': cname, 'form': form, 'values': hexes(v), 'k': k,
+                                             'how': 'checks.c05.ctor_case(cls, form, values, k)'})
+    ck.sample({'ctor_case': ['FrozenAngle', 'vec', [-90.0, 720.0, -1e-14]], 'slots': hexes(raw_slots(ctor_forms()['vec'](__import__('srctools.math').math.FrozenAngle, [-90.0, 720.0, -1e-14], 'ang', 0)[0]))})
+    for key, (what, rp) in found.items():
+        ck.violation(key, what, rp)
+
+
+# ------------------------------------------------------------------------------------------------ frozen values as keys; in-place operators
+INPLACE_OPS = ('iadd', 'isub', 'imul', 'itruediv', 'ifloordiv', 'imod', 'ipow', 'imatmul', 'ilshift', 'irshift', 'iand', 'ixor', 'ior')
+
+
+def inplace_case(cname: str, v: list, opname: str, argkind: str) -> list[tuple[str, str]]:
+    """`x = frozen; x <op>= arg` for one operator and one kind of argument: the frozen object and the argument keep
+    their value (and hash), the name is rebound to another object unless the value is the same."""
+    import operator
+    import srctools.math as M
+    mk = {'FrozenVec': lambda: M.FrozenVec(*v), 'FrozenAngle': lambda: M.FrozenAngle(*v),
+          'FrozenMatrix': lambda: M.FrozenMatrix.from_angle(*v)}[cname]
+    a = mk()
+    arg = {'float': 2.5, 'int': 3, 'zero': 0.0, 'tuple': (1.0, 2.0, 3.0), 'vec': M.Vec(1.0, -2.0, 0.5), 'fvec': M.FrozenVec(1.0, -2.0, 0.5),
+           'angle': M.Angle(10.0, 20.0, 30.0), 'fangle': M.FrozenAngle(10.0, 20.0, 30.0), 'matrix': M.Matrix.from_yaw(45.0),
+           'fmatrix': M.FrozenMatrix.from_pitch(-1e-14), 'self': a}[argkind]
+    before, hb = snap(a), (safe_hash(a) if cname != 'FrozenMatrix' else None)
+    arg_before = snap(arg) if hasattr(arg, '__slots__') and not isinstance(arg, tuple) else None
+    out: list[tuple[str, str]] = []
+    try:
+        with warnings.catch_warnings():
+            warnings.simplefilter('ignore')
+            x = getattr(operator, opname)(a, arg)
+    except (TypeError, ZeroDivisionError, ValueError, ArithmeticError):
+        x = None
+    what = f'x = {cname}{tuple(v)!r}; x {opname} {argkind}'
+    if snap(a) != before or (hb is not None and safe_hash(a) != hb):
+        out.append((f'frozen-{cname}-changed-by-inplace-{opname}', f'{what}: the frozen object went from {before[1]} to {snap(a)[1]}'))
+    if arg_before is not None and arg is not a and snap(arg) != arg_before:
+        out.append((f'argument-changed-by-inplace-{opname}-{cname}', f'{what}: the argument went from {arg_before[1]} to {snap(arg)[1]}'))
+    if x is not None and not isinstance(x, tuple) and (isvec(x) or isang(x) or ismat(x)):
+        if isang(x) and finite_obj(x) and not all(0.0 <= c < 360.0 for c in raw_slots(x)):
+            out.append((f'angle-out-of-range-after-inplace-{opname}-{cname}', f'{what} gives {raw_slots(x)!r}'))
+        if x is a and False:
+            pass
+    return out
+
+
+def search_frozen_keys(ck: Ck) -> None:
+    """(1) hash/==: the same value reached by different routes hashes and compares equal and is found in a dict/set; the hash
+    of a frozen object is the same after reading operations; mutable classes are unhashable.  == within the tolerance
+    but different hashes is reported under its own key (inherent to a tolerance equality; known finding).
+    (2) every in-place operator on every frozen class with every kind of argument."""
+    import srctools.math as M
+    rng = ck.rng
+    found: dict[str, tuple] = {}
+    for o in (M.Vec(1, 2, 3), M.Angle(1, 2, 3), M.Matrix()):
+        try:
+            hash(o)
+            found[f'mutable-class-hashable-{type(o).__name__}'] = (f'hash({o!r}) works although the value can change', {'call': 'hash', 'cls': type(o).__name__})
+        except TypeError:
+            pass
+    n = ck.budget(400, 4000)
+    for i in range(n):
+        if too_many_hangs():
+            break
+        q = rng.random()
+        if i < len(CTOR_FLOATS):
+            v = [CTOR_FLOATS[i], CTOR_FLOATS[(i * 7 + 3) % len(CTOR_FLOATS)], CTOR_FLOATS[(i * 5 + 1) % len(CTOR_FLOATS)]]
+        elif q < 0.4:       # around the rounding boundaries of round(x, 6) and the tolerance of ==
+            v = [nextafter_n(rng.randint(-10 ** 6, 10 ** 6) / 10 ** rng.choice([0, 3, 6]) + rng.choice([0.0, 5e-7, -5e-7, 1e-6, 4.9e-7]), rng.randint(-2, 2)) for _ in range(3)]
+        else:
+            v = [rnd_val(rng) for _ in range(3)]
+        for cls in (M.FrozenVec, M.FrozenAngle):
+            with impl_limit():
+                a = cls(*v)
+                if not finite_obj(a):
+                    continue
+                try:
+                    hash(a)
+                except TypeError as e:
+                    found.setdefault(f'frozen-class-unhashable-{cls.__name__}', (f'hash({a!r}) raises {e}', {'call': 'hash', 'cls': cls.__name__, 'values': hexes(v)}))
+                    continue
+                ck.count('hash_cases')
+                if any(c != round(c) for c in raw_slots(a)):
+                    ck.seen(('hash', cls.__name__, tuple(hexes(v))))
+                h0, s0 = hash(a), raw_slots(a)
+                makers = {'components': lambda: cls(*a), 'pickle': lambda: pickle.loads(pickle.dumps(a)), 'thaw_freeze': lambda: a.thaw().freeze(),
+                          'from_mutable': lambda: cls(a.thaw()), 'iterator': lambda: cls(iter(a)), 'deepcopy_of_thawed': lambda: cls(copy.deepcopy(a.thaw())),
+                          'from_str_object': lambda: cls.from_str(a)}
+                routes = {}
+                for rname, mk in makers.items():
+                    try:
+                        routes[rname] = mk()
+                    except Exception as e:      # noqa: BLE001 - none of these may fail for a finite frozen value
+                        found.setdefault(f'frozen-route-raised-{rname}-{cls.__name__}', (f'{rname} of {a!r} raised {type(e).__name__}: {e}',
+                                                                                       {'call': 'hash_route', 'cls': cls.__name__, 'values': hexes(v), 'route': rname}))
+                if 'pickle' not in routes:
+                    continue
+                for rname, b in routes.items():
+                    if hexes(raw_slots(b)) != hexes(s0):
+                        continue                      # a different value: reported by the constructor / copy oracles
+                    if hash(b) != h0 or not (a == b) or (a != b) or {a: 1}.get(b) != 1 or b not in {a} or a not in frozenset([b]):
+                        found.setdefault(f'frozen-hash-differs-for-same-value-{rname}-{cls.__name__}',
+                                         (f'{a!r} and the same value by {rname}: hash {h0} / {hash(b)}, == {a == b}', {'call': 'hash_route', 'cls': cls.__name__, 'values': hexes(v), 'route': rname}))
+                # reading operations leave value and hash alone
+                reads = [str, repr, lambda o: o.join(';'), lambda o: format(o, '.2f'), list, lambda o: o.thaw(), lambda o: o == routes['pickle'],
+                         lambda o: o == tuple(o), lambda o: o @ M.Angle(10, 20, 30), lambda o: o * 2]
+                if isvec(a):
+                    reads += [bool, lambda o: -o, abs, lambda o: o + o, lambda o: o - (1, 2, 3), lambda o: o.norm(), lambda o: o.mag(), lambda o: o.to_angle(),
+                              lambda o: o.cross(o), lambda o: o.dot(o), lambda o: round(o, 3), lambda o: divmod(o, 7.0), lambda o: o.rotate_by_str('0 90 0') if hasattr(o, 'rotate_by_str') else None]
+                else:
+                    reads += [lambda o: M.Matrix.from_angle(o), lambda o: 3 * o, lambda o: o.as_tuple(), lambda o: reversed(o)]
+                for rd in reads:
+                    try:
+                        with warnings.catch_warnings():
+                            warnings.simplefilter('ignore')
+                            rd(a)
+                    except (OverflowError, ZeroDivisionError, ValueError, ArithmeticError):
+                        pass
+                if hash(a) != h0 or hexes(raw_slots(a)) != hexes(s0):
+                    found.setdefault(f'frozen-{cls.__name__}-changed-by-reading', (f'{cls.__name__}{tuple(v)!r}: slots {hexes(s0)} -> {hexes(raw_slots(a))}, hash {h0} -> {hash(a)}',
+                                                                                  {'call': 'hash_read', 'cls': cls.__name__, 'values': hexes(v)}))
+                # == implies equal hashes (Python's contract for keys)
+                for d in (0.0, 1e-7, 4e-7, -6e-7, 9.9e-7):
+                    b = cls(s0[0] + d, s0[1], s0[2] - d)
+                    if finite_obj(b) and a == b and hash(a) != hash(b):
+                        ck.hist('eq_but_hash_differs', cls.__name__)
+                        if hexes(raw_slots(b)) == hexes(s0):
+                            found.setdefault(f'frozen-hash-differs-for-same-value-shift-{cls.__name__}', (f'{a!r} twice: different hashes', {'call': 'hash_eq', 'cls': cls.__name__, 'values': hexes(v), 'd': d}))
+                        else:
+                            found.setdefault(f'equal-frozen-values-hash-differently-{cls.__name__}',
+                                             (f'{cls.__name__}{s0!r} == {cls.__name__}{raw_slots(b)!r} but their hashes differ ({hash(a)} / {hash(b)}): the second is not found in a dict keyed by the first',
+                                              {'call': 'hash_eq', 'cls': cls.__name__, 'values': hexes(list(s0)), 'd': d}))
+    # in-place operators
+    m = ck.budget(3, 12)
+    for j in range(m):
+        v = [rnd_val(rng) for _ in range(3)] if j else [-1e-14, 90.0, 359.99999999999994]
+        for cname in ('FrozenVec', 'FrozenAngle', 'FrozenMatrix'):
+            for opname in INPLACE_OPS:
+                for argkind in ('float', 'int', 'zero', 'tuple', 'vec', 'fvec', 'angle', 'fangle', 'matrix', 'fmatrix', 'self'):
+                    ck.count('inplace_cases')
+                    ck.hist('inplace_op', opname)
+                    try:
+                        with impl_limit():
+                            probs = inplace_case(cname, v, opname, argkind)
+                    except ImplTimeout:
+                        probs = [(f'implementation-hangs-in-inplace-{opname}-{cname}', f'{cname} {opname} {argkind} did not return')]
+                    for key, what in probs:
+                        found.setdefault(key, (what, {'call': 'inplace_case', 'cls': cname, 'values': hexes(v), 'op': opname, 'arg': argkind,
+                                                      'how': 'checks.c05.inplace_case(cls, values, op, arg)'}))
+    for key, (what, rp) in found.items():
+        ck.violation(key, what, rp)
+
+
+# ------------------------------------------------------------------------------------------------ __format__ with a user spec
+FORMAT_SPECS = ['.0f', '.1f', '.2f', '.3f', '.6f', '.7f', '.9f', '.12f', 'f', 'F', 'e', 'E', '.0e', '.1e', '.3e', '.10e', 'g', 'G', '.1g', '.3g', '.10g', '.17g',
+                '.3', '.12', '.2%', '.0%', ',.2f', '_.3f', '+.3f', ' .2f', '10.2f', '<10.3f', '>12.4f', '^9.1f', '010.3f', '+.2e', '#.3g', '012.4e']
+
+
+def spec_number(t: str) -> float | None:
+    """The number a formatted component denotes (padding, thousands separators, a percent sign removed)."""
+    t = t.strip().replace(',', '').replace('_', '')
+    pct = t.endswith('%')
+    try:
+        from fractions import Fraction
+        v = Fraction(t[:-1] if pct else t)
+        return float(v / 100 if pct else v)
+    except (ValueError, ZeroDivisionError):
+        return None
+
+
+def format_spec_case(cname: str, v: list, spec: str) -> list[tuple[str, str]]:
+    """format(obj, spec): three components, each denoting exactly the number Python's format() of that component denotes
+    (the zero stripping must not change a value); an empty spec is str(); '.Nf' output is plain and never '-0'."""
+    import srctools.math as M
+    o = getattr(M, cname)(*v)
+    comps = raw_slots(o)
+    fam = 'angle' if isang(o) else 'vec'
+    kind = re.sub(r'[^a-zA-Z%]', '', spec) or 'general'
+    txt = format(o, spec)
+    out: list[tuple[str, str]] = []
+    if format(o, '') != str(o) or f'{o}' != str(o):
+        out.append((f'{fam}-format-empty-spec-differs-from-str', f'format({o!r}, "") = {format(o, "")!r}, str = {str(o)!r}'))
+    padded = bool(re.match(r'.?[<>^=]|0?\d', spec)) or spec.startswith(' ')
+    parts = txt.split(' ') if not padded else None
+    if padded:
+        # with padding the components contain spaces: compare the numbers found
+        parts = re.findall(r'[-+]?[0-9][0-9,_]*\.?[0-9]*(?:[eE][-+]?[0-9]+)?%?|[-+]?\.[0-9]+(?:[eE][-+]?[0-9]+)?%?', txt)
+    if len(parts) != 3:
+        return out + [(f'{fam}-format-spec-{kind}-not-three-numbers', f'format({o!r}, {spec!r}) = {txt!r}')]
+    for c, t in zip(comps, parts):
+        want = spec_number(format(c + 0.0, spec))
+        got = spec_number(t)
+        if want is None:
+            continue
+        if got is None or got != want:
+            out.append((f'{fam}-format-spec-{kind}-changes-value', f'format({o!r}, {spec!r}) = {txt!r}: component {c!r} is written {t!r}, format() of the float gives {format(c + 0.0, spec)!r}'))
+            break
+        if re.fullmatch(r'\.\d+f', spec) and not padded:
+            if t == '-0':
+                out.append((f'{fam}-format-spec-negative-zero', f'format({o!r}, {spec!r}) = {txt!r}'))
+                break
+            if not re.fullmatch(r'-?[0-9]+(\.[0-9]*[1-9])?', t):
+                out.append((f'{fam}-format-spec-f-not-plain', f'format({o!r}, {spec!r}) = {txt!r}: {t!r} is not a plain decimal without trailing zeros'))
+                break
+    return out
+
+
+def search_format_spec(ck: Ck) -> None:
+    rng = ck.rng
+    n = ck.budget(150, 1500)
+    found: dict[str, tuple] = {}
+    special = [1.5e20, 1e10, 2.5e-10, 100.0, 0.5, -1e-9, 1e100, 1234567.0, 0.0001, 1e-5, 120.0, 1e22, 5e-324, 100000.0, 1e6, 1e16, -0.0, 359.9999995]
+    for i in range(n):
+        if too_many_hangs():
+            break
+        if i < len(special):
+            v = [special[i], special[(i + 5) % len(special)], special[(i + 11) % len(special)]]
+        else:
+            v = [gen_fmt_double(rng)[1] if rng.random() < 0.6 else rng.choice(special) * rng.choice([1, 10, 100, 1000, -1]) for _ in range(3)]
+        if not all(math.isfinite(x) and abs(x) < 1e300 for x in v):
+            continue
+        for cname in ('Vec', 'FrozenVec', 'Angle', 'FrozenAngle'):
+            specs = FORMAT_SPECS if i < len(special) else rng.sample(FORMAT_SPECS, 6)
+            for spec in specs:
+                ck.count('format_spec_cases')
+                ck.hist('format_spec', spec)
+                try:
+                    with impl_limit():
+                        probs = format_spec_case(cname, v, spec)
+                except ImplTimeout:
+                    probs = [(f'implementation-hangs-in-format-{cname}', f'format({cname}{tuple(v)!r}, {spec!r}) did not return')]
+                except Exception as e:      # noqa: BLE001
+                    probs = [(f'format-spec-raised-{cname}', f'format({cname}{tuple(v)!r}, {spec!r}) raised {type(e).__name__}: {e}')]
+                if any('e' in format(c + 0.0, spec).lower() for c in v):
+                    ck.seen(('fspec', cname, spec, tuple(hexes(v))))
+                for key, what in probs:
+                    found.setdefault(key, (what, {'call': 'format_spec_case', 'cls': cname, 'values': hexes(v), 'spec': spec,
+                                                  'how': 'checks.c05.format_spec_case(cls, values, spec)'}))
+    for key, (what, rp) in found.items():
+        ck.violation(key, what, rp)
 
 
 def theorems_with_axioms(ck: Ck, props_file: str = 'Props/C05.v'):
@@ -1108,7 +1858,7 @@ def theorems_with_axioms(ck: Ck, props_file: str = 'Props/C05.v'):
 # statements of Props/C05.v that go through Flocq's real-number layer (the four classical axioms of Coq's Reals); every other
 # statement is expected to be closed under the global context.  Only a hint for the fast path below: if it is wrong in
 # either direction the per-statement pass runs and reports what Print Assumptions really says.
-REALS_THEOREMS = {'c05_norm360_range', 'c05_single_mod_closed', 'c05_single_mod_refuted', 'c05_angle_range_invariant', 'c05_single_site_refuted',
+REALS_THEOREMS = {'c05_property', 'c05_ctor_range', 'c05_ctor_vec_copy_refuted', 'c05_norm360_range', 'c05_single_mod_closed', 'c05_single_mod_refuted', 'c05_angle_range_invariant', 'c05_single_site_refuted',
                   'c05_double360_id', 'c05_double360_idempotent', 'c05_double360_of_360', 'c05_within_5e7_R', 'c05_float_parse_error',
                   'c05_float_parse_exact', 'c05_copy_value_equal_angles', 'c05_double360_sub', 'c05_angle_component_roundtrip',
                   'c05_angle_text_roundtrip', 'c05_vec_text_roundtrip'}
@@ -1210,11 +1960,15 @@ def _theorems_record(ck: Ck, props_file: str, names: list[str], parts: list[list
 def run(ck: Ck) -> None:
     ck.rule = ('mod360: doubles from all binades / around multiples of 360 / subnormals / tiny negatives, non-trivial = the modulo changed '
                'the value, distinct by bit pattern; format: doubles incl. exact ties k/128, tiny values, boundaries, non-trivial = output has a '
-               'fraction or a sign; histories: random operation sequences (54 operation kinds) over registers of Vec/Angle/Matrix and frozen '
+               'fraction or a sign; histories: random operation sequences (65 operation kinds) over registers of Vec/Angle/Matrix and frozen '
                'twins, non-trivial = some register changed while a frozen register exists, distinct by full history; to_angle routes: '
                'non-trivial = a tiny non-zero operand; parse: corpus + generated strings (three formatted/literal/exotic numbers, 0-5 fields, '
                'stray brackets, 18 kinds of Unicode whitespace and look-alikes, all bracket styles incl. wrong ones), non-trivial = the model '
-               'predicts three decimal fields, distinct by text')
+               'predicts three decimal fields, distinct by text; constructor forms: 43 ways of building an object from three numbers x 4 classes x '
+               'value triples from 32 boundary/out-of-range floats and 16 ints, then 17 copy-like operations, non-trivial = an angle class and a '
+               'component outside [0,360) or -0.0, distinct by (class, form, values); hash: frozen values by seven routes, values around the '
+               'rounding boundaries of round(x, 6), non-trivial = a non-integer component; in-place: 13 operators x 3 frozen classes x 11 kinds of '
+               'argument; format specs: 38 specs x 4 classes, non-trivial = some component prints with an exponent')
     ck.trusted.append('hand-written models Num/Mod360.v (CPython float_rem on binary64), Num/Dec6.v (printf %.6f + rstrip), Num/VecText.v '
                       '(str.strip/split, bracket removal, plain-decimal reader), SM/FrozenOps.v + SM/FrozenCopy.v + SM/FrozenCopyValue.v '
                       '(frame, result aliasing, slot transfer of copies) - tied by differential runs on every execution; Num/AngleText.v '
@@ -1223,7 +1977,9 @@ def run(ck: Ck) -> None:
     ck.assumptions += ['operands of % 360 are finite doubles (no overflow to inf/nan inside Angle arithmetic)',
                        'C printf("%.6f") and float() are correctly rounded (IEEE 754 round-half-even); float() of a plain decimal is checked against '
                        'the exactly rounded Fraction on every parse case',
-                       'only the public API is used (no writes to underscore slots, no direct calls of dunder/underscore helpers)']
+                       'only the public API is used (no writes to underscore slots, no direct calls of dunder/underscore helpers)',
+                       "Python's format(float, spec) is taken as given: only what __format__ does to its output is modelled",
+                       'a call into the implementation that uses more than 20 s of CPU time is treated as not terminating']
     ok_t = ck.translate('AngleSites_gen', c05_sites.translate)
     side = ck.extra.get('translated', {}).get('AngleSites_gen', {})
     built = ok_t and ck.build(['Gen/AngleSites_gen.vo', 'Props/C05.vo'])
@@ -1236,6 +1992,7 @@ def run(ck: Ck) -> None:
             'no_single_modulo_store': empty('sites_of_kind is_single angle_sites'),
             'no_unclassified_angle_store': empty('sites_of_kind is_other angle_sites'),
             'no_unclassified_angle_creation': 'all_creations_ok angle_creations',
+            'angle_constructors_normalise_every_argument_form': 'ctor_table_ok angle_ctors angle_ctor_rows',
             'to_angle_stores_all_slots': 'to_angle_stores_all_slots',
             'angle_init_stores_all_slots': 'angle_init_stores_all_slots',
             'format_float_pipeline_recognised': 'format_float_recognised',
@@ -1250,6 +2007,9 @@ def run(ck: Ck) -> None:
             'format_float_strips_zeros': 'strips format_float_cfg',
             'format_float_pipeline_ok_up_to_negative_zero': 'cfg_base_ok format_float_cfg',
             'str_and_join_use_format_float': 'str_uses_format_float',
+            'format_with_spec_recognised': 'format_spec_recognised',
+            'format_with_empty_spec_is_str': 'format_spec_empty_is_str',
+            'format_with_spec_strips_zeros_of_fixed_point_text_only': '(spec_cfg_ok vec_spec_cfg && spec_cfg_ok angle_spec_cfg)%bool',
             'mutation_census_ok': 'table_ok mut_events no_carve',
             'copy_results_new_or_frozen_self': 'copy_results_ok result_kinds',
             'copy_protocol_present_on_all_six_classes': 'copy_methods_present result_kinds',
@@ -1257,6 +2017,14 @@ def run(ck: Ck) -> None:
             'copy_shapes_keep_every_slot_value': 'copy_shapes_ok copy_shapes',
             'copy_shapes_agree_with_result_kinds': 'shapes_agree result_kinds copy_shapes',
             'census_fresh_by_name_justified': 'fresh_names_ok fresh_by_name',
+            'hash_is_a_function_of_all_slots_of_a_frozen_value': 'hash_table_ok hash_kinds',
+            'no_inplace_operator_on_a_class_of_frozen_objects': 'inplace_ok inplace_rows',
+            'eq_compares_every_slot_and_accepts_identical_values': 'eq_table_ok eq_shapes',
+            'ne_is_the_negation_of_eq': 'ne_is_negation_of_eq',
+            'whole_property_hypotheses_hold': 'c05_source_ok {| s_sites := angle_sites; s_creations := angle_creations; s_ctors := angle_ctors; '
+                                              's_ctor_rows := angle_ctor_rows; s_events := mut_events; s_results := result_kinds; s_shapes := copy_shapes; '
+                                              's_hash := hash_kinds; s_inplace := inplace_rows; s_fmt := format_float_cfg; s_parse := parse_vec_cfg; '
+                                              's_vspec := vec_spec_cfg; s_aspec := angle_spec_cfg |}',
             'no_write_through_unknown_or_aliased_object': 'forallb (fun e : mut_event => match snd (fst e) with Unknown | MaybeAlias | Param => helper (snd (fst (fst e))) | _ => true end) mut_events',
         })
         if not all(res.values()):      # a premise of the theorems no longer holds for today's source: escalate the search
@@ -1265,8 +2033,10 @@ def run(ck: Ck) -> None:
     with ThreadPoolExecutor(max_workers=8) as pool:
         # the model evaluations (coqc processes) run in the pool while the searches on the implementation run here
         pend = [Pending(ck, g(ck), pool) for g in (corr_mod, corr_format, corr_parse)] if built else []
+        if built:
+            pend.append(Pending(ck, corr_format_spec(ck, side), pool))
         info = pool.submit(ck.coq_eval, IMPORTS, ['bad_events no_carve mut_events', 'bad_results result_kinds', 'bad_creations angle_creations',
-                                                  'neg_zero_fix format_float_cfg', 'bad_shapes copy_shapes'], 'info', 600, 'Import ListNotations.') if built else None
+                                                  'neg_zero_fix format_float_cfg', 'bad_shapes copy_shapes', 'bad_ctor_rows angle_ctor_rows', 'bad_hash_rows hash_kinds', 'bad_eq_rows eq_shapes'], 'info', 600, 'Import ListNotations.') if built else None
         escalated = bool(ck.tie_broken)
         frames = guarded(ck, search_histories, [])
         if built:
@@ -1274,12 +2044,19 @@ def run(ck: Ck) -> None:
             corr_results(ck, frames, side)
             corr_shapes(ck, frames, side)
         guarded(ck, search_to_angle)
+        CTOR_CORR_CASES.clear()
+        guarded(ck, search_ctor_forms)
+        if built:
+            pend.append(Pending(ck, corr_ctor_rows(ck, side), pool))
+        guarded(ck, search_frozen_keys)
+        guarded(ck, search_format_spec)
         guarded(ck, search_text)
         for p in pend:
             p.finish()
         v = info.result() if info is not None else None
         if v:
-            ck.extra['offending_census_entries'] = {'mut_events': v[0], 'result_kinds': v[1], 'angle_creations': v[2], 'copy_shapes': v[4]}
+            ck.extra['offending_census_entries'] = {'mut_events': v[0], 'result_kinds': v[1], 'angle_creations': v[2], 'copy_shapes': v[4],
+                                                     'angle_ctor_rows (constructor, argument form)': v[5], 'hash_kinds': v[6], 'eq_shapes': v[7]}
             ck.extra['format_float_has_negative_zero_repair (carve-out of c05_format6_shape empty when true)'] = v[3]
         if finish_theorems is not None:
             finish_theorems()
@@ -1287,21 +2064,31 @@ def run(ck: Ck) -> None:
         # a correspondence failed after the searches had run with the small budget: search again with the escalated one
         guarded(ck, search_histories)
         guarded(ck, search_to_angle)
+        guarded(ck, search_ctor_forms)
+        guarded(ck, search_frozen_keys)
+        guarded(ck, search_format_spec)
         guarded(ck, search_text)
     explain_failures(ck)
 
 
 def guarded(ck: Ck, search, default=None):
     """Run one search; an exception that escapes from the implementation inside it (a broken tree can raise anywhere)
-    is reported as a failed obligation of the check instead of ending the run with an internal error."""
+    is a failing input of its own: reported as a violation whose replay is the search with this seed (and as a failed
+    obligation of the check when it was raised by the check itself) instead of ending the run with an internal error."""
     try:
         return search(ck)
     except Exception as e:          # noqa: BLE001
         import traceback
         tb = traceback.extract_tb(e.__traceback__)
-        where = next((f'{fr.name} ({fr.filename.rsplit("/", 1)[-1]}:{fr.lineno})' for fr in reversed(tb) if '/srctools/' in fr.filename), 'the check')
+        impl = next((fr for fr in reversed(tb) if '/srctools/' in fr.filename), None)
+        where = f'{impl.name} ({impl.filename.rsplit("/", 1)[-1]}:{impl.lineno})' if impl else 'the check'
         ck.obligation(f'search:{search.__name__}_completed', False, f'{type(e).__name__}: {e} raised in {where}')
         ck.tie_broken.append(f'{search.__name__} stopped by {type(e).__name__} in {where}')
+        if impl is not None:
+            ck.violation(f'implementation-raised-{type(e).__name__}-in-{impl.name}', f'{type(e).__name__}: {e} raised in {where} during {search.__name__}; '
+                         + ' <- '.join(f'{fr.name}:{fr.lineno}' for fr in reversed(tb[-6:])),
+                         {'search': search.__name__, 'seed': ck.seed, 'tier': ck.tier, 'how': f'./check C05 --tier {ck.tier} with VERIF_SEED={ck.seed}: checks.c05.{search.__name__}'})
+            ck.explain(f'search:{search.__name__}_completed')
         return default
 
 
@@ -1320,6 +2107,9 @@ def explain_failures(ck: Ck) -> None:
         if any('format_float' in o['detail'] or '__str__' in o['detail'] or 'join' in o['detail'] or '__repr__' in o['detail']
                for o in ck.obligations if o['name'].startswith('translate:') and not o['ok']):
             ck.explain('translate:')       # the translator failed closed on a text method and the search shows the broken output
+    if any('-format-spec-' in k or '-format-empty-spec' in k or k.startswith('format-spec-raised') for k in keys if not k.endswith('format-spec-negative-zero')):
+        ck.explain('instance:format_with_')
+        ck.explain('correspondence:format_spec')
     if any(k.endswith('negative-zero-outside-carve-out') for k in keys):
         ck.explain('instance:format_float_exact_zero_has_no_sign')
         ck.explain('correspondence:format6')
@@ -1333,15 +2123,33 @@ def explain_failures(ck: Ck) -> None:
         for o in ('instance:all_angle_store_sites_safe', 'instance:no_single_modulo_store', 'instance:no_unclassified_angle_store',
                   'instance:no_unclassified_angle_creation', 'instance:to_angle_stores_all_slots', 'instance:angle_init_stores_all_slots'):
             ck.explain(o)
+    if any(k.startswith(('angle-out-of-range-after-ctor', 'angle-ctor-wrong-value', 'ctor-', 'angle-out-of-range-after-iter_ctor',
+                         'angle-out-of-range-after-new_', 'angle-out-of-range-after-ctor_')) for k in keys):
+        ck.explain('instance:angle_constructors_normalise_every_argument_form')
+        ck.explain('correspondence:ctor_rows')
+    if any(k.startswith('angle-ctor-wrong-value') for k in keys):
+        for o in ('instance:all_angle_store_sites_safe', 'instance:no_single_modulo_store', 'instance:no_unclassified_angle_store'):
+            ck.explain(o)
     if any(k.startswith(('frozen-', 'frozenmatrix-', 'non-receiver-')) for k in keys):
         ck.explain('instance:mutation_census_ok')
         ck.explain('instance:no_write_through_unknown_or_aliased_object')
         ck.explain('instance:census_fresh_by_name_justified')
         ck.explain('correspondence:frames')
-    if any(k.startswith(('copy-is-same-object', 'copy-not-equal', 'source-changed-by')) for k in keys):
+    if any(k.startswith(('copy-is-same-object', 'copy-not-equal', 'source-changed-by', 'copy-raised', 'raised-', 'frozen-route-raised', 'copy-wrong-class')) for k in keys):
         ck.explain('instance:copy_')
         ck.explain('correspondence:results')
         ck.explain('correspondence:copy_shapes')
+    if any(k.startswith(('copy-compares-unequal', 'ctor-not-equal-to-same-value')) for k in keys):
+        ck.explain('instance:eq_compares_every_slot_and_accepts_identical_values')
+        ck.explain('instance:ne_is_the_negation_of_eq')
+    if any(k.startswith(('frozen-hash-differs', 'frozen-class-unhashable', 'mutable-class-hashable')) or k.endswith('-changed-by-reading') for k in keys):
+        ck.explain('instance:hash_is_a_function_of_all_slots_of_a_frozen_value')
+    if any('-by-inplace-' in k or k.startswith(('frozen-', 'non-receiver-')) for k in keys):
+        ck.explain('instance:no_inplace_operator_on_a_class_of_frozen_objects')
+    # the conjunction of all hypotheses is explained when each conjunct that failed is
+    conj = [o for o in ck.obligations if o['name'].startswith('instance:') and not o['ok'] and o['name'] != 'instance:whole_property_hypotheses_hold']
+    if conj and all(o.get('explained') for o in conj):
+        ck.explain('instance:whole_property_hypotheses_hold')
 
 
 def replay(data: dict) -> int:
@@ -1352,6 +2160,18 @@ def replay(data: dict) -> int:
             print(f)
         print('registers:', [snap(o)[:2] for o in regs])
         print('problems:', problems)
+        return 0
+    if isinstance(r, dict) and r.get('call') == 'ctor_case':
+        v = [unhex(x) for x in r['values']]
+        print(f"ctor_case({r['cls']!r}, {r['form']!r}, {v!r}, {r['k']})")
+        for key, what in ctor_case(r['cls'], r['form'], v, r['k']):
+            print(' ', key, '--', what)
+        return 0
+    if isinstance(r, dict) and r.get('call') == 'format_spec_case':
+        print(format_spec_case(r['cls'], [unhex(x) for x in r['values']], r['spec']))
+        return 0
+    if isinstance(r, dict) and r.get('call') == 'inplace_case':
+        print(inplace_case(r['cls'], [unhex(x) for x in r['values']], r['op'], r['arg']))
         return 0
     if isinstance(r, dict) and r.get('call') == 'format_float':
         from srctools.math import format_float
